@@ -98,3 +98,13 @@ Definition corr_rtf_cells (is_ws is_word : N -> bool) (c : str * list str) : boo
 Definition corr_rtf_gen (is_ws is_word : N -> bool) (c : bool * str * list (list str) * str * list (list (list str))) : bool :=
   let '(tight, sep, g, text, r) := c in
   str_eqb text (rtf_r_doc_gen tight sep g) && tables_eqb (rtf_tables is_ws is_word text) r.
+
+(* decks: slides of frames (rank of y, rank of x, content); result None = the extractor raised *)
+Definition corr_odp_deck (c : list (list (nat * nat * option xml)) * option (list (list (list str)))) : bool :=
+  let slides := map (map (fun f : nat * nat * option xml =>
+                     let '(y, x, t) := f in ((y, x), option_map (odp_table (lookup_int []) ODF_SKIP) t))) (fst c) in
+  opt_eqb tables_eqb (Some (deck_tables slides)) (snd c).
+Definition corr_pptx_deck (is_ws : N -> bool) (c : list (list (nat * nat * option xml)) * option (list (list (list str)))) : bool :=
+  let slides := map (map (fun f : nat * nat * option xml =>
+                     let '(y, x, t) := f in ((y, x), match t with Some fr => pptx_table is_ws fr | None => None end))) (fst c) in
+  opt_eqb tables_eqb (Some (deck_tables slides)) (snd c).
